@@ -39,7 +39,8 @@ def pretty_assign(p: Path, bitnames: dict[int, str], alias: dict[str, str] | Non
     return out
 
 
-def oracle_values(oracle: Callable[[Get], Any], val: dict[str, bool], limit: int = 10) -> list[Any]:
+def oracle_values(oracle: Callable[[Get], Any], val: dict[str, bool], limit: int = 10,
+                  exclusive: Callable[[str], Any] | None = None) -> list[Any]:
     """All values the oracle can take over completions of a partial valuation."""
     pending = [dict(val)]
     out: list[Any] = []
@@ -51,6 +52,9 @@ def oracle_values(oracle: Callable[[Get], Any], val: dict[str, bool], limit: int
             if len(v) - len(val) > limit:
                 raise AnalysisError('oracle needs too many undecided atoms') from None
             for b in (False, True):
+                if b and exclusive is not None and exclusive(n.atom) is not None and \
+                        any(t and k != n.atom and exclusive(k) == exclusive(n.atom) for k, t in v.items()):
+                    continue  # atoms of one group exclude each other (one value equals at most one constant)
                 v2 = dict(v)
                 v2[n.atom] = b
                 pending.append(v2)
@@ -62,7 +66,8 @@ def oracle_values(oracle: Callable[[Get], Any], val: dict[str, bool], limit: int
 
 def compare_table(paths: list[Path], bitnames: dict[int, str], oracle: Callable[[Get], Any],
                   project: Callable[[Path], Any], known_atoms: set[str] | None = None,
-                  alias: dict[str, str] | None = None, where: str = '') -> tuple[bool, str, int]:
+                  alias: dict[str, str] | None = None, where: str = '',
+                  exclusive: Callable[[str], Any] | None = None) -> tuple[bool, str, int]:
     """Return (ok, first mismatch description, rows).
 
     `known_atoms`: the vocabulary of the specification. A path deciding a non-flag atom outside it cannot be
@@ -78,7 +83,7 @@ def compare_table(paths: list[Path], bitnames: dict[int, str], oracle: Callable[
                     raise AnalysisError(f'{where}: unrecognised condition `{a}` in a decision function')
         rows += 1
         got = project(p)
-        exp = oracle_values(oracle, val)
+        exp = oracle_values(oracle, val, exclusive=exclusive)
         if exp != [got]:
             desc = ', '.join(f'{k}={int(v)}' for k, v in sorted(val.items()))
             return False, f'row [{desc}]: computed {got!r}, specification {" or ".join(map(repr, exp))}', rows
